@@ -8,10 +8,12 @@
    PROVED for every option set and every input x with parse_blocks o x = Ok r, for every node of the public tree:
      1 <= start line, 1 <= start column;
      start line <= max 1 N and end line <= max 1 N  when `free_val o value`;
-     start line <= max 1 (end line)                 for ThematicBreak, fenced CodeBlock, MultilineBlockQuote (`tbl`).
+     start line <= max 1 (end line)                 for ThematicBreak, fenced CodeBlock, MultilineBlockQuote when the
+                                                    description list extension is off (`tbl`).
    (max 1: the empty input has N = 0 and the Document 1:1-0:0, BlocksPos_empty_document_refuted.)
-   `free_val o v` is: description lists off, v is not FrontMatter, and (table extension off, or v is none of Paragraph,
-   setext Heading, Table, TableRow, TableCell, DescriptionList, DescriptionItem).
+   `free_val o v` is: not (description lists and table extension both on), v is not FrontMatter, and (table extension
+   off, or v is none of Paragraph, setext Heading, Table, TableRow, TableCell, DescriptionList, DescriptionItem).
+   So with the table extension off the line bounds hold for EVERY node except the front matter.
    REFUTED (witnesses by vm_compute on the model; the model is tied to the implementation):
      start line <= end line for HtmlBlock (known class C11-h), 1 <= end line for the Document of the empty input (C11-a),
      end line <= N for FrontMatter (NEW: front matter whose closing line has no line end).
@@ -74,8 +76,8 @@ Print Assumptions BlocksPos_front_matter_refuted.
    try_inserting_table_header_paragraph moves the start of the paragraph by the LF count of the preface; that count is
    bounded by the paragraph's line_offsets (one per line added), but carrying `start + |line_offsets| <= line_number`
    through the replacement of the paragraph by the table needs that node identifiers are unique (upd and edit_kids
-   find the same node), which is not proved for the model.  With description lists on, parse_desc_list_details writes
-   a start through an identifier returned by add_child; that it is the new node needs `identifiers < ps_next`. *)
+   find the same node), which is not proved for the model.  With description lists on as well, parse_desc_list_details
+   copies such a start through an identifier returned by add_child; that it is the new node needs `identifiers < ps_next`. *)
 Definition BlocksPos_lines_full_statement : Prop := forall o x r,
   parse_blocks o x = Ok r ->
   forall n, In n (nsub (to_node (br_root r))) ->
